@@ -407,7 +407,19 @@ func (e *Exec) applyContract(s *State, f *Frame, con *Contract, sig *types.Signa
 			if !applicable(func() { e.withPol(1, func() { g = e.evalClauseEnv(s, nil, r, env, nil) }) }) {
 				continue
 			}
-			e.emit(s, fmt.Sprintf("call.%d:%s.requires.%d", n, short, i+1), g, pos)
+			assumed := false
+			if top := e.w.contractFor(s.frames[0].fn); top != nil && top.AssumeRequires != nil {
+				nm := short
+				if k := strings.LastIndexAny(nm, ".)"); k >= 0 {
+					nm = nm[k+1:]
+				}
+				assumed = top.AssumeRequires[nm] || top.AssumeRequires[short]
+			}
+			if assumed {
+				e.note("precondition of " + short + " assumed at the call site (assume_requires): " + r.Text)
+			} else {
+				e.emit(s, fmt.Sprintf("call.%d:%s.requires.%d", n, short, i+1), g, pos)
+			}
 			e.withPol(-1, func() { h = e.evalClauseEnv(s, nil, r, env, nil) })
 			s.assume(h)
 		}
